@@ -364,6 +364,48 @@ def _check_not_null_cut(R, exf):
         if os_ and all(o.kind == "call" and re.search(r"^alloc::vec::Vec::new$", short(o.call.name)) and id(o.call) not in push_recv for o in os_):
             empty_rows.append(rb)
     ok_all = True
+    # path facts (any order / spelling of the two tests, named flags, early exits): a pass of the column loop goes on to the next
+    # column only with `value is not NULL` or `nullable`, and the row is cut only with `value is NULL` and `not nullable`
+    fa = PR.facts(exf, tag="notnull") if pushes else None
+    lp0 = PR.loop_of(exf, pushes[0].bb) if pushes else None
+    if fa is not None and fa.ok and lp0 is not None and fa.backedge_worlds(lp0[0]):
+        def nullness(w):
+            out = set()
+            for key, val in w:
+                a = fa.atoms.get(key, {})
+                c = a.get("call")
+                if c is not None and isinstance(val, bool) and re.search(r"Value::(is_null|is_not_null)$", short(c.name)):
+                    out.add(val if short(c.name).endswith("is_null") else (not val))
+            return out
+
+        def nullable(w):
+            out = set()
+            for key, val in w:
+                a = fa.atoms.get(key, {})
+                if a.get("kind") == "place" and a.get("call") is None and (a.get("fields") or [None])[-1] == "nullable" and isinstance(val, bool):
+                    out.add(val)
+            return out
+
+        for w in fa.backedge_worlds(lp0[0]):
+            if False in nullness(w) or True in nullable(w):
+                continue
+            ok_all = False
+            R.violation("C06.admit", "extract|cut-escapes",
+                        "extract(): the column loop goes on to the next column on a path where the value was not shown to be non-NULL and the "
+                        "column not shown to be nullable (%s): a line can be admitted with a NULL in a NOT NULL column"
+                        % (", ".join(sorted(fa.describe(x) for x in w))[:200] or "no test at all"), [exf.loc(lp0[0])])
+            break
+        for cb in clears + empty_rows:
+            ws = fa.worlds_at(cb) or []
+            if cb not in lp0[1] and not ws:
+                continue
+            badw = [w for w in ws if not (True in nullness(w) and False in nullable(w))]
+            if badw:
+                ok_all = False
+                R.violation("C06.admit", "extract|cut-unconditional", "the NOT NULL cut in extract() is reached without `value is NULL` and `column "
+                            "is NOT NULL` both having been established (%s): admissible lines would be dropped"
+                            % (", ".join(sorted(fa.describe(x) for x in badw[0]))[:200] or "no test"), [exf.loc(cb)])
+        sws = []
     for sw in sws:
         t = exf.blocks[sw]["term"]
         zero = [b for v, b in t["targets"] if v == "0"]
@@ -424,4 +466,4 @@ def _check_not_null_cut(R, exf):
         R.violation("C06.admit", "extract|no-row", "extract() no longer builds its result with Row::new", [exf.loc()])
     if ok_all:
         R.ok("C06.admit", "extract|not-null-cut", "NULL in a NOT NULL column clears the row on every path; test applied to the extracted (defaulted) value",
-             exf.loc(sws[0]))
+             exf.loc(sws[0]) if sws else exf.loc())
